@@ -114,3 +114,7 @@ pub open spec fn is_total(txt: Seq<u8>, n: int) -> bool {
 pub open spec fn keys_valid(txt: Seq<u8>, n: int) -> bool {
     forall|k: int| 0 <= k < n ==> valid_utf8(key_bytes(#[trigger] str_k(txt, k)))
 }
+
+pub open spec fn no_eq(k: Seq<u8>) -> bool { first_eq(k) == k.len() }
+// what ServiceInfo::new accepts (C16's quantifier): key without '=', key[=value] of 1..=255 bytes
+pub open spec fn encodable(p: TxtProperty) -> bool { 1 <= prop_bytes(p).len() <= 255 && no_eq(utf8(p.key@)) }
